@@ -77,6 +77,10 @@ def menu(f, with_queries=False, full=True):
         if 'ROW' in dims and 'COL' in dims:
             add('slice', dims['ROW'] >= 1 and dims['COL'] >= 1,
                 sel=[['ROW', ['l', [0, dims['ROW'] - 1]]], ['COL', ['i', 0]]])
+        def twice(d):
+            # (what stacking or re-ordering means for a variable that carries the dimension on two axes is not
+            # defined anywhere: outside the domain)
+            return any(list(vd).count(d) > 1 for vd, dt in vars_.values())
         lens_ok = all(all(dims[x] >= 1 for x in vd) for vd, dt in vars_.values())
         for d in ([d0, dl] if d0 != dl else [d0]):
             num = _numeric_along(vars_, d)
@@ -86,13 +90,15 @@ def menu(f, with_queries=False, full=True):
                 add('apply', num and dims[d] >= 1, dim=d, fn=['r', 'min'], alias=True)
             if d == dl:
                 add('apply', num and dims[d] >= 1 and lens_ok and not (conv and dims[d] <= 1), dim=d, fn=['k', 'head_2'])
-            add('apply', num and dims[d] >= 1 and lens_ok and not (conv and dims[d] <= 1),
-                dim=d, fn=['f', 'diff'])
+            # (diff of a length-1 dimension is empty; along the second axis of a variable that carries the
+            # dimension twice numpy.apply_along_axis is then undefined)
+            add('apply', num and dims[d] >= 1 and lens_ok and not (conv and dims[d] <= 1)
+                and not (dims[d] <= 1 and twice(d)), dim=d, fn=['f', 'diff'])
         # convention files: only stacking in time is documented (the vertical
         # / horizontal grid description cannot be derived for other axes)
-        add('stack', not conv or d0 == 'TSTEP', dim=d0)
+        add('stack', (not conv or d0 == 'TSTEP') and not twice(d0), dim=d0)
         if full and d0 != dl:
-            add('stack', not conv or dl == 'TSTEP', dim=dl)
+            add('stack', (not conv or dl == 'TSTEP') and not twice(dl), dim=dl)
     vn = [k for k in vars_ if not (conv and k in ('TFLAG', 'ETFLAG'))]
     if vn:
         v0 = vn[0]
@@ -119,7 +125,8 @@ def menu(f, with_queries=False, full=True):
             add('insertDimension', not conv, name='ins1', n=1, before=dn[-1])
         add('removeSingleton', not conv)
         if len(dn) >= 2:
-            add('reorderDimensions', not conv, old=dn, new=dn[::-1])
+            add('reorderDimensions', not conv and not any(len(set(vd)) != len(vd) for vd, dt in vars_.values()),
+                old=dn, new=dn[::-1])
     allnum = all(dt.kind in NUM for (vd, dt) in vars_.values())
     noncoord_num = all(dt.kind in NUM for k, (vd, dt) in vars_.items() if k not in coords)
     add('mask', allnum, greater=2000.5)
